@@ -178,7 +178,9 @@ RecClauses(e) ==
          <<"C03.wait-min",      \* the instruction after a Wait begins to execute no earlier than the duration after the Wait began
            (e.n \notin began /\ e.prevWaitMs >= 0 /\ HasStart(e.prev) /\ e.prev \notin F /\ e.prev \in D)
               => ms - StartOf(e.prev)[2] >= e.prevWaitMs>>,
-         <<"C04.invoked-after-block-end@" \o e.site, Blind \/ (e.cls \in CondCls => SetOfSeq(e.blocks) \cap E = {})>> >>
+         <<"C04.invoked-after-its-block-completed@" \o e.site,      \* (in the tick of the End block itself an activated Watch/Alarm
+           \* still records its invocation, with no body line: judged by not-in-ended-block; after the block completed it must not)
+           Blind \/ (e.cls \in CondCls => SetOfSeq(e.blocks) \cap E \cap D = {})>> >>
     ELSE <<>>
 
 ThrClauses(e) ==
